@@ -2409,6 +2409,9 @@ class State:
             cards: CardsLike | int,
     ) -> tuple[Card, ...]:
         if isinstance(cards, int):
+            if cards < 0:
+                raise ValueError(f'The card count {cards} is negative.')
+
             dealable_cards = tuple(self.get_dealable_cards(cards))
 
             if len(dealable_cards) < cards:
